@@ -160,7 +160,14 @@ class Pipeline:
         s.update(self.cfg["qha"]["settings"])
         s["input"] = os.path.join(dirpath, self.cfg["qha"]["input"])
         q = qha.calculator.Calculator(s)
-        q.read_input()
+        try:
+            q.read_input()
+        except ValueError:
+            # qha's own reader only understands plain decimals in the P= V= E= headers; for other (valid) spellings the
+            # reference hands it a canonical re-spelling of exactly the numbers its own parser read
+            s["input"] = self._canonical_copy(s["input"])
+            q = qha.calculator.Calculator(s)
+            q.read_input()
         if not (numpy.array_equal(q.volumes, self.ph["vols"]) and numpy.array_equal(q.static_energies, self.ph["energies"])
                 and numpy.array_equal(numpy.asarray(q.frequencies), self.ph["freqs"]) and numpy.array_equal(q.q_weights, self.ph["weights"])):
             raise RuntimeError("reference parser and qha's reader disagree on the phonon file")
@@ -177,6 +184,24 @@ class Pipeline:
         self._static_pressure()
         self._strains()
         self.filled = fill(self.st["table"]) if fill else dict(self.st["table"])
+
+    def _canonical_copy(self, path):
+        with open(path) as fp:
+            text = fp.read().split("\n")
+        out = []
+        k = 0
+        for line in text:
+            if re.search(r"P\s*=\s*\S+\s+V\s*=\s*\S+\s+E\s*=\s*\S+", line):
+                out.append(f" P= {self.ph['pressures'][k]:.14f}      V= {float(self.ph['vols'][k])!r}      E= {float(self.ph['energies'][k])!r}")
+                k += 1
+            else:
+                out.append(line)
+        if k != self.ph["nv"]:
+            raise RuntimeError("canonical copy: volume headers not found")
+        new = path + ".refcopy"
+        with open(new, "w") as fp:
+            fp.write("\n".join(out))
+        return new
 
     # -- pieces
     def _static_pressure(self):
